@@ -121,6 +121,9 @@ C05(e) ==
   \* caller asked for has not passed leads straight to the next build (the reader re-stores it, which hides it from the
   \* guard above)
   /\ (e.ev = "beRead" /\ e.c = "expired" /\ cfg.SyncRead) => ~FreshBuilt(e.k)
+  \* "a burst of N Gets on a missing or expired key costs exactly one successful build": no second build of the key
+  \* while one is in flight (with SyncRead; without it this is C01 alone)
+  /\ (e.ev = "benter" /\ cfg.SyncRead /\ e.p \notin skipP) => At(inb, e.k, 0) = 0
 
 C06(e) ==
   /\ e.ev = "beWrite" =>
